@@ -55,8 +55,35 @@ Proof.
     - left. apply filter_In in Hin. rewrite <- H6. apply Hin. }
   destruct (m_phase m =? Phase_PROPOSE).
   - destruct ((q_proposer (m_qc m) =? m_from m) && m_hasprop m); [exact Hput|same].
-  - destruct (negb (r_blk r1 =? 0) && (q_block (m_qc m) =? block_hash r1) && (q_results (m_qc m) =? r_res r1)); [exact Hput|same].
+  - match goal with |- context [if ?b then put_prop m r1 else r1] => destruct b end; [exact Hput|same].
 Qed.
+
+(* ---- AddProposal's rule (Bft.keeps): a message sent by the proposer its certificate names is never kept out, and once such a
+   message is stored for a (round, phase) no message of another sender replaces it *)
+Lemma keeps_consistent r m : q_proposer (m_qc m) = m_from m -> keeps r m = false.
+Proof.
+  intros H. unfold keeps. destruct (find _ (r_props r)); [|reflexivity].
+  rewrite H, N.eqb_refl. apply andb_false_r.
+Qed.
+
+Lemma recv_lmsg_leader_message_stays c r m old :
+  find (fun e => (fst (fst e) =? m_round m) && (snd (fst e) =? m_phase m)) (r_props r) = Some (m_round m, m_phase m, old) ->
+  q_proposer (m_qc old) = m_from old -> q_proposer (m_qc m) <> m_from m ->
+  r_props (recv_lmsg c r m) = r_props r.
+Proof.
+  intros Hfind Hold Hnew. unfold recv_lmsg. cbv zeta.
+  destruct (r_commit r) eqn:Ec; [reflexivity|].
+  set (r1 := if r_blk r =? 0 then r else touch r).
+  assert (H1 : r_props r1 = r_props r) by (unfold r1; destruct (r_blk r =? 0); reflexivity).
+  assert (Hk : keeps r1 m = true).
+  { unfold keeps. rewrite H1, Hfind. cbn [snd]. rewrite Hold, N.eqb_refl. apply N.eqb_neq in Hnew. rewrite Hnew. reflexivity. }
+  apply N.eqb_neq in Hnew. rewrite Hk, Hnew. cbn [negb andb].
+  repeat match goal with
+  | |- r_props (if ?b then _ else _) = _ => destruct b
+  | |- r_props (match ?x with QErr => _ | QPartial => _ | QFull => _ end) = _ => destruct x
+  end; first [reflexivity | exact H1].
+Qed.
+
 
 Lemma recv_vote_spec c r v :
   let r' := recv_vote c r v in
